@@ -168,7 +168,7 @@ SPEC = {
         "float_parts_shape_as_modelled", "lex_float_nearest", "nearest64_total", "nearest64_correct", "nearest64_zero",
         "nearest_correct_partial", "nearest_correct", "nearest_monotone", "nearest64_monotone",
         "nearest_exact_on_representable",
-        "literal_tables_as_modelled", "msl_double_literal_rejected", "emit_int_exact", "emit_value_exact", "emit_whole_value_exact",
+        "literal_tables_as_modelled", "literal_fold_as_modelled", "msl_double_literal_rejected", "emit_int_exact", "emit_value_exact", "emit_whole_value_exact",
         "emit_infinity_exact", "emit_negative_exact", "emit_f32_double_rounding_repaired",
         "multi_file_spans_in_file", "multi_file_error_in_file"]],
     "harness": "c10",
